@@ -5,11 +5,11 @@ cd "$(dirname "$0")"
 export CARGO_NET_OFFLINE=true
 mkdir -p .work evidence replays
 echo "[setup] coq"
-( cd coq && coq_makefile -f _CoqProject -o Makefile >/dev/null && timeout 3400 make -j16 2>&1 | tail -3 ) || exit 1
+( cd coq && ./mkproject.sh && timeout 3400 make -k -j16 2>&1 | grep -v '^COQ\|Closed under' | tail -20 )
 echo "[setup] ocaml model runners"
 for f in coq/extract/*.v; do
   p=$(basename "$f" .v | tr A-Z a-z)
-  ./ocaml/build.sh "$p" || exit 1
+  ./ocaml/build.sh "$p" || echo "[setup] WARNING: model runner $p failed to build"
 done
 echo "[setup] rust harness"
 [ -f harness/Cargo.lock ] || cp /repo/Cargo.lock harness/Cargo.lock
